@@ -436,6 +436,6 @@ def run_case(case):
 
 
 def cases(tier, seed):
-    N = 1500 if tier == "quick" else 50000
+    N = 1500 if tier == "quick" else 250000
     for i in range(N):
         yield {"seed": seed * 104723 + i, "nblocks": 1 + i % 4, "storage": 32 if i % 3 else 80, "init": i % 4 != 3, "sample": i % 500 == 0}
